@@ -535,7 +535,7 @@ func main() {
 			if tier == "thorough" {
 				return driver.Plan{Random: 1500000, WallLimit: 30 * time.Minute}
 			}
-			return driver.Plan{Random: 40000, WallLimit: 5 * time.Minute}
+			return driver.Plan{Random: 80000, WallLimit: 5 * time.Minute}
 		},
 		RunOne: runOne,
 	})
